@@ -696,9 +696,6 @@ fn do_minimize(dfa: DFA) -> DFA {
                         group_id == intern_id
                     )
                 });
-                if group_id == intern_id {
-                    break;
-                }
             }
         }
     }
